@@ -83,7 +83,9 @@ def run(tier, argv):
             rng = random.Random(chk.seed)
             sysc = [c for c in cs if c[1] == "systematic"]
             cat = [c for c in cs if c[1] == "categorical"]
-            cs = sysc + rng.sample(cat, min(len(cat), 300 if tier == "quick" else 3000))
+            if tier != "quick" and len(sysc) > 1200:
+                sysc = rng.sample(sysc, 1200)         # one process cannot run many thousands of cases (see DESIGN 8.4: mapped memory)
+            cs = sysc + rng.sample(cat, min(len(cat), 300 if tier == "quick" else 500))
             chk.cov["exhaustive"] = False
         cases += cs
     U, C = _Scripted(D.uniform, jnp.float32), _Scripted(D.categorical, jnp.int32)
